@@ -41,6 +41,11 @@ func init() {
 	generators["negprio"] = genNegPrio
 	generators["acklosttakeover"] = genAckLostTakeover
 	generators["promoterace"] = genPromoteRace
+	generators["bigthreshold"] = genBigThreshold
+	generators["stalecheck"] = genStaleCheck
+	generators["closewatchstop"] = genCloseWatchStop
+	generators["bucketreset"] = genBucketReset
+	generators["restartinrelease"] = genRestartInRelease
 	generators["twoinflight"] = genTwoInFlight
 	generators["outage"] = genOutage
 	generators["slowdemote"] = genSlowDemote
@@ -281,7 +286,7 @@ func genStopPoints(r rng, k int) *Spec {
 // c03grid: fault kind x first faulty attempt x (H, TTL, latency, had-watch-loop)
 // ---------------------------------------------------------------------------
 
-var c03Kinds = []string{"err-timeout", "err-noresponders", "err-connclosed", "hang", "acklost", "partition", "replaced", "deleted", "expired", "mix-hang-err", "mix-err-hang", "mix-hang-err-acklost"}
+var c03Kinds = []string{"err-timeout", "err-noresponders", "err-connclosed", "err-canceled", "err-deadline", "hang", "acklost", "partition", "replaced", "deleted", "expired", "mix-hang-err", "mix-err-hang", "mix-hang-err-acklost"}
 
 func genC03Grid(r rng, k int) *Spec {
 	kind := c03Kinds[k%len(c03Kinds)]
@@ -317,8 +322,8 @@ func genC03Grid(r rng, k int) *Spec {
 		s.Actions = append(s.Actions, Action{At: t0, Kind: "start", Inst: "i0"})
 	}
 	switch kind {
-	case "err-timeout", "err-noresponders", "err-connclosed":
-		e := map[string]string{"err-timeout": "timeout", "err-noresponders": "noresponders", "err-connclosed": "connclosed"}[kind]
+	case "err-timeout", "err-noresponders", "err-connclosed", "err-canceled", "err-deadline":
+		e := map[string]string{"err-timeout": "timeout", "err-noresponders": "noresponders", "err-connclosed": "connclosed", "err-canceled": "canceled", "err-deadline": "deadline"}[kind]
 		s.Rules = append(s.Rules, FaultRule{Client: "i0", Op: "Update", FromOrd: att, Kind: "err", Err: e})
 	case "hang":
 		s.Rules = append(s.Rules, FaultRule{Client: "i0", Op: "Update", FromOrd: att, Kind: "hang", Err: "timeout"})
@@ -2799,6 +2804,189 @@ func genPromoteRace(r rng, k int) *Spec {
 }
 
 // ---------------------------------------------------------------------------
+// bigthreshold: MaxConsecutiveFailures far above the usual 1-4 (33, 40, 64, 100 - "all
+// thresholds 1..N"): a streak of threshold-1 unhealthy ticks, one healthy tick, then a streak
+// that reaches the threshold. Whatever the count is kept in, it has to reach it.
+// ---------------------------------------------------------------------------
+
+// BigThresholdTotal is the size of the enumeration.
+func BigThresholdTotal() int { return 4 * 2 }
+
+func genBigThreshold(r rng, k int) *Spec {
+	idx := k % BigThresholdTotal()
+	m := []int{33, 40, 64, 100}[idx%4]
+	idx /= 4
+	j := 1 + 2*(idx%2)
+	h := 100 * ms
+	s := &Spec{TTL: time.Duration(m+20) * h, NoPreempt: true, Tags: []string{"health", "bigthreshold"}}
+	s.Lat = Latency{Max: r.pickD(0, 2*ms)}
+	s.Insts = mkInsts(1, 1, h)
+	s.Insts[0].Health = strings.Repeat("h", j) + strings.Repeat("u", m-1) + "h" + strings.Repeat("u", m+2) + strings.Repeat("h", 20)
+	s.Insts[0].HealthOn, s.Insts[0].MaxFail = true, m
+	s.Actions = append(s.Actions, Action{At: 10 * ms, Kind: "start", Inst: "i0"})
+	s.Duration = time.Duration(j+2*m+12) * h
+	s.Sample = 250 * ms
+	return s
+}
+
+// ---------------------------------------------------------------------------
+// stalecheck: a follower's fallback read of the record (after its watch was closed from the
+// store's side) is served while the old leader still holds the key, and its answer is on its
+// way; the follower's acquisition round, started by the re-established watch, has its next
+// Create on its way too. The leader shuts down gracefully (DeleteKey); the Create is applied
+// and the follower leads; only now the answer of the read arrives. It describes a record of
+// the past. Everything stays below H/2; no faults: the new leader is not disturbed.
+// ---------------------------------------------------------------------------
+
+// StaleCheckTotal is the size of the enumeration.
+func StaleCheckTotal() int { return 2 * 3 }
+
+func genStaleCheck(r rng, k int) *Spec {
+	idx := k % StaleCheckTotal()
+	three := idx%2 == 1
+	idx /= 2
+	late := []time.Duration{ms, 50 * ms, 300 * ms}[idx%3] // how long after the promotion the stale answer arrives
+	h := r.pickD(2*sec, 3*sec)
+	s := &Spec{TTL: 3 * h, Benign: true, NoPreempt: true, Tags: []string{"stalecheck"}}
+	s.Lat = Latency{Min: ms, Max: r.pickD(2*ms, 5*ms)}
+	n := 2
+	if three {
+		n = 3
+	}
+	s.Insts = mkInsts(n, 1, h)
+	s.Breaks = []BreakSpec{
+		{Name: "rd", Client: "i1", Op: "Get", Nth: 1, Phase: "resp"},
+		{Name: "cr", Client: "i1", Op: "Create", Nth: 1, Phase: "req"},
+	}
+	s.Actions = append(s.Actions, Action{At: 10 * ms, Kind: "start", Inst: "i0"}, Action{At: 300 * ms, Kind: "start", Inst: "i1"})
+	if three {
+		s.Actions = append(s.Actions, Action{At: 600 * ms, Kind: "start", Inst: "i2"})
+	}
+	s.Actions = append(s.Actions,
+		Action{At: 3 * sec, Kind: "arm", Break: "rd"},
+		Action{Chain: true, Kind: "arm", Break: "cr"},
+		Action{Chain: true, Kind: "closewatch", Inst: "i1"},
+		Action{After: ms, Kind: "waitbreak", Break: "rd", D: 2 * sec},
+		Action{After: ms, Kind: "waitbreak", Break: "cr", D: 2 * sec},
+		Action{After: ms, Kind: "stop", Inst: "i0", Stop: &StopVariant{DeleteKey: true, Wait: true, Timeout: 5 * sec}},
+		Action{After: 20 * ms, Kind: "release", Break: "cr"},
+		Action{After: 20*ms + late, Kind: "release", Break: "rd"},
+	)
+	s.Duration = 6 * h
+	s.Sample = sampleFor(h)
+	return s
+}
+
+// ---------------------------------------------------------------------------
+// closewatchstop: the store closes a follower's (or a watching leader's) watch; a stop call
+// follows 1 / 15 / 60 / 200 ms later. Whatever the library has scheduled in reaction to the
+// lost watch (a fallback read, a new watch, a timer), nothing of it reaches the store after
+// the stop call has returned.
+// ---------------------------------------------------------------------------
+
+// CloseWatchStopTotal is the size of the enumeration.
+func CloseWatchStopTotal() int { return 4 * 4 }
+
+func genCloseWatchStop(r rng, k int) *Spec {
+	idx := k % CloseWatchStopTotal()
+	gap := []time.Duration{ms, 15 * ms, 60 * ms, 200 * ms}[idx%4]
+	idx /= 4
+	sv := []StopVariant{{Plain: true}, {DeleteKey: true, Wait: true, Timeout: 5 * sec}, {DeleteKey: false, Timeout: 5 * sec}, {DeleteKey: true, Wait: false, Timeout: 2 * sec}}[idx%4]
+	h := r.pickD(500*ms, 1*sec)
+	s := &Spec{TTL: 5 * h, NoPreempt: true, Tags: []string{"lifecycle", "closewatchstop"}}
+	s.Lat = Latency{Min: ms, Max: r.pickD(2*ms, 5*ms)}
+	s.Insts = mkInsts(2, 1, h)
+	s.Actions = append(s.Actions, Action{At: 10 * ms, Kind: "start", Inst: "i0"}, Action{At: 300 * ms, Kind: "start", Inst: "i1"},
+		Action{At: 2*sec + r.dur(0, 400*ms), Kind: "closewatch", Inst: "i1"},
+		Action{After: gap, Kind: "stop", Inst: "i1", Stop: &sv},
+		Action{After: ms, Kind: "waitapi", Inst: "i1", D: 8 * sec})
+	s.Duration = 3 * h
+	s.Sample = sampleFor(h)
+	return s
+}
+
+// ---------------------------------------------------------------------------
+// bucketreset: an operator deletes the bucket and creates it again while an election is
+// running on it: the record is gone without a notification, the store's revisions start
+// over at 1, the watches end. The leader loses its term at its next refresh; after that the
+// key is vacant and the instances - which have all seen revisions far above 1 - fill it
+// within the usual bound. (With every watch notification dropped, and with none dropped.)
+// ---------------------------------------------------------------------------
+
+// BucketResetTotal is the size of the enumeration.
+func BucketResetTotal() int { return 2 * 2 * 2 }
+
+func genBucketReset(r rng, k int) *Spec {
+	idx := k % BucketResetTotal()
+	drop := idx%2 == 0
+	idx /= 2
+	n := 1 + idx%2
+	idx /= 2
+	h := []time.Duration{200 * ms, 500 * ms}[idx%2]
+	s := &Spec{TTL: 3 * h, NoPreempt: true, Tags: []string{"c06", "bucketreset"}}
+	s.Lat = Latency{Min: 0, Max: r.pickD(ms, 5*ms)}
+	if drop {
+		s.Watch = WatchPolicy{DropP: 1}
+	}
+	s.Insts = mkInsts(n, 1, h)
+	s.Actions = append(s.Actions, Action{At: 10 * ms, Kind: "start", Inst: "i0"})
+	if n == 2 {
+		s.Actions = append(s.Actions, Action{At: 300 * ms, Kind: "start", Inst: "i1"})
+	}
+	s.Actions = append(s.Actions, Action{At: 10*ms + 12*h + r.dur(0, h), Kind: "outreset", Inst: "g0"})
+	s.Duration = s.TTL + 8*h + 2*sec
+	s.Sample = sampleFor(h)
+	return s
+}
+
+// ---------------------------------------------------------------------------
+// restartinrelease: StopWithContext{DeleteKey, WaitForDemote} of a leader whose OnPromote
+// callback winds down slowly - longer than the lease: the record of the ended term expires
+// while the stop call waits. Then the call's ownership read goes out and is held on its way;
+// the application starts the election again (another goroutine: a supervisor), the key is
+// free, a new term begins under a new token; now the read is served - it shows the NEW term's
+// record. The shutdown of the earlier run leaves it alone.
+// ---------------------------------------------------------------------------
+
+// RestartInReleaseTotal is the size of the enumeration.
+func RestartInReleaseTotal() int { return 2 * 2 * 2 }
+
+func genRestartInRelease(r rng, k int) *Spec {
+	idx := k % RestartInReleaseTotal()
+	phase := []string{"req", "resp"}[idx%2] // "resp": served before the restart (shows no record), answered after it
+	idx /= 2
+	two := idx%2 == 1
+	idx /= 2
+	h := []time.Duration{400 * ms, 1 * sec}[idx%2]
+	// (fault-free: the store answers every call well below H/2 - the read is held for 50 ms;
+	// only the application's own OnPromote callback is slow to return)
+	s := &Spec{TTL: 3 * h, Benign: true, NoPreempt: true, Tags: []string{"lifecycle", "restartinrelease", phase}}
+	s.Lat = Latency{Min: ms, Max: r.pickD(2*ms, 5*ms)}
+	n := 1
+	if two {
+		n = 2
+	}
+	s.Insts = mkInsts(n, 1, h)
+	s.Insts[0].BlockPromote = true
+	s.Insts[0].PromoteLinger = s.TTL + 2*h
+	s.Breaks = []BreakSpec{{Name: "og", Client: "i0", Op: "Get", Nth: 1, Phase: phase}}
+	s.Actions = append(s.Actions, Action{At: 10 * ms, Kind: "start", Inst: "i0"},
+		Action{At: 2 * sec, Kind: "arm", Break: "og"},
+		Action{Chain: true, Kind: "stop", Inst: "i0", Stop: &StopVariant{DeleteKey: true, Wait: true, Timeout: 8 * sec}},
+		Action{After: ms, Kind: "waitbreak", Break: "og", D: 6 * sec},
+		Action{After: ms, Kind: "start", Inst: "i0"},
+		Action{After: 50 * ms, Kind: "release", Break: "og"},
+		Action{After: ms, Kind: "waitapi", Inst: "i0", D: 8 * sec})
+	if two {
+		// a second instance joins afterwards: it must find the restarted instance's record
+		s.Actions = append(s.Actions, Action{After: 100 * ms, Kind: "start", Inst: "i1"})
+	}
+	s.Duration = 6 * h
+	s.Sample = sampleFor(h)
+	return s
+}
+
+// ---------------------------------------------------------------------------
 // refusedthen: a takeover-enabled instance c is refused once by a leader b of equal or higher
 // priority. b goes away without a delete (its record expires), while c is cut off from the
 // store (every call fails, its watch is closed and cannot be re-established); a
@@ -2924,7 +3112,7 @@ func genBlindRelease(r rng, k int) *Spec {
 // ---------------------------------------------------------------------------
 
 // CtxCancelTotal is the size of the enumeration.
-func CtxCancelTotal() int { return 3 * 6 * 2 }
+func CtxCancelTotal() int { return 3 * 8 * 2 }
 
 func genCtxCancel(r rng, k int) *Spec {
 	idx := k % CtxCancelTotal()
@@ -2932,9 +3120,9 @@ func genCtxCancel(r rng, k int) *Spec {
 	idx /= 3
 	// what follows the end of the context: a stop call (4 variants), another Start on the same
 	// object without any stop call, or nothing at all for longer than a TTL
-	follow := idx % 6
-	sv := []StopVariant{{Plain: true}, {DeleteKey: true, Wait: true, Timeout: 5 * sec}, {DeleteKey: false, Timeout: 5 * sec}, {DeleteKey: true, Wait: true, CtxKind: "deadline", CtxD: 2 * sec}, {}, {}}[follow]
-	idx /= 6
+	follow := idx % 8
+	sv := []StopVariant{{Plain: true}, {DeleteKey: true, Wait: true, Timeout: 5 * sec}, {DeleteKey: false, Timeout: 5 * sec}, {DeleteKey: true, Wait: true, CtxKind: "deadline", CtxD: 2 * sec}, {}, {}, {}, {}}[follow]
+	idx /= 8
 	leader := idx%2 == 0
 	h := r.pickD(500*ms, 1*sec)
 	s := &Spec{TTL: 5 * h, NoPreempt: true, Tags: []string{"lifecycle", "ctxcancel"}}
@@ -2960,6 +3148,25 @@ func genCtxCancel(r rng, k int) *Spec {
 	case 5:
 		s.Tags = append(s.Tags, "nothing-follows")
 		s.Duration = s.TTL + 4*h
+	case 7:
+		// the election is stopped properly and started again with a context of its own; once it
+		// leads again, the context of the FIRST run ends (a deferred cancel, a time-out): that
+		// concerns nobody any more. (The "cancelstart" of this scenario is replaced.)
+		s.Tags = append(s.Tags, "old-context-ends-later")
+		s.Actions = s.Actions[:len(s.Actions)-1]
+		s.Actions = append(s.Actions,
+			Action{At: 2 * sec, Kind: "stop", Inst: x, Stop: &StopVariant{DeleteKey: true, Wait: true, Timeout: 5 * sec}},
+			Action{After: gap + ms, Kind: "start", Inst: x},
+			Action{After: s.TTL + 2*h, Kind: "cancelstart", Inst: x, Val: "previous"})
+		s.Duration = 4 * h
+	case 6:
+		// no stop call either, but the record changes hands and the application validates: a
+		// false verdict of ValidateTokenOrDemote demotes, whatever has become of the Start context
+		s.Tags = append(s.Tags, "ordemote-follows")
+		s.Actions = append(s.Actions,
+			Action{After: gap + h/2, Kind: "output", Inst: "g0", Val: `{"id":"intruder","token":"x"}`},
+			Action{After: ms, Kind: "validate", Inst: x, Val: "bg", OrDemote: true})
+		s.Duration = 4 * h
 	default:
 		if gap == 0 {
 			s.Actions = append(s.Actions, Action{Chain: true, Kind: "stop", Inst: x, Stop: &sv})
